@@ -173,6 +173,9 @@ def c08(ctx):
     ctx.assumptions += TRUST
     ctx.assumptions.append("relational check: both sides are real executions; the specification supplies the visible balance after the save (printed by TLC)")
     ctx.tlc_mc("SemMC", "SemMC_prog_%s.cfg" % ctx.tier, label="C08_Sem: what was saved cannot be moved without an overdraft grant (design level)")
+    # saves followed by the greedy draw, every number a symbolic unbounded integer: inductive invariant by Apalache
+    ctx.assumptions.append("Apalache 0.58 + Z3 for the inductive invariant of SaveApa.tla (balances, saved amounts, caps, grants are unbounded integers)")
+    sem.inductive_apalache(ctx, "SaveApa", guards=[("IndInit", "NextBad", "IndInvFinal", 1), ("Init", None, "NeverShort", 6)])
     n, b = scale(ctx, (3000, 4), (8000, 16))
     sem.split_batches(ctx, "save", "c08", n, b)
     sem.trace_batches(ctx, "save", "MachineTrace_C08.cfg", n, min(b, 4))
